@@ -59,66 +59,206 @@ type effect struct {
 }
 
 // saveEffects walks the statements of a function in order and classifies every call of interest.
-func saveEffects(p *pkgSrc, fd *ast.FuncDecl, interesting func(string) bool) []effect {
-	var out []effect
-	var walk func(list []ast.Stmt)
-	walk = func(list []ast.Stmt) {
-		for i, st := range list {
-			switch s := st.(type) {
-			case *ast.IfStmt:
-				if as, ok := s.Init.(*ast.AssignStmt); ok && len(as.Rhs) == 1 {
-					if c, ok := as.Rhs[0].(*ast.CallExpr); ok && interesting(callName(c)) {
-						out = append(out, effect{callName(c), isErrNotNil(s.Cond) && returnsError(s.Body), "if err := ...; err != nil { return err }", p.pos(c)})
-					}
-				}
-				walk(s.Body.List)
-				if eb, ok := s.Else.(*ast.BlockStmt); ok {
-					walk(eb.List)
-				}
-			case *ast.AssignStmt:
-				if len(s.Rhs) == 1 {
-					if c, ok := s.Rhs[0].(*ast.CallExpr); ok && interesting(callName(c)) {
-						checked := false
-						// x, err := f(); if err != nil { return ... } as the next statement
-						assignsErr := false
-						for _, l := range s.Lhs {
-							if id, ok := l.(*ast.Ident); ok && id.Name == "err" {
-								assignsErr = true
+//
+// Calls are named by the role of their receiver, not by the name of the variable: a variable assigned from
+// zip.NewWriter is a "zipWriter", one assigned from os.Create / os.OpenFile a "file", one assigned from the Create of
+// a zipWriter a "writer"; a parameter takes the role of the argument it is called with.  Calls of functions and
+// methods declared in the same package are followed (their effects appear in place, in order); an effect inside such
+// a function reaches the return value of the outer function only if it is checked there and the call of the function
+// is checked too.
+type saveWalk struct {
+	p           *pkgSrc
+	interesting func(string) bool
+	out         []effect
+	truncates   bool
+	visiting    map[string]bool
+}
+
+func (w *saveWalk) roleName(c *ast.CallExpr, roles map[string]string) string {
+	if f, ok := c.Fun.(*ast.SelectorExpr); ok {
+		if id, ok := f.X.(*ast.Ident); ok {
+			if r, ok := roles[id.Name]; ok {
+				return r + "." + f.Sel.Name
+			}
+		}
+	}
+	return callName(c)
+}
+
+// localFunc: the declaration of the function or method a call refers to, when it is declared in this package
+func (w *saveWalk) localFunc(c *ast.CallExpr) *ast.FuncDecl {
+	name := ""
+	switch f := c.Fun.(type) {
+	case *ast.Ident:
+		name = f.Name
+	case *ast.SelectorExpr:
+		if _, ok := f.X.(*ast.Ident); ok {
+			name = f.Sel.Name
+		}
+	}
+	if name == "" {
+		return nil
+	}
+	var found *ast.FuncDecl
+	n := 0
+	for _, fd := range w.p.allFuncs() {
+		if fd.Name.Name == name && fd.Body != nil {
+			found = fd
+			n++
+		}
+	}
+	if n != 1 {
+		return nil
+	}
+	// a selector call must be a method call on a value (d.helper), not a call into another package (os.Create)
+	if sel, ok := c.Fun.(*ast.SelectorExpr); ok && found.Recv == nil {
+		_ = sel
+		return nil
+	}
+	return found
+}
+
+func (w *saveWalk) noteRoles(lhs []ast.Expr, c *ast.CallExpr, roles map[string]string) {
+	if len(lhs) == 0 {
+		return
+	}
+	id, ok := lhs[0].(*ast.Ident)
+	if !ok || id.Name == "_" {
+		return
+	}
+	switch n := w.roleName(c, roles); n {
+	case "zip.NewWriter":
+		roles[id.Name] = "zipWriter"
+	case "os.Create", "os.OpenFile":
+		roles[id.Name] = "file"
+	case "zipWriter.Create":
+		roles[id.Name] = "writer"
+	}
+}
+
+// call: one call met in statement position; checked = its error reaches the return value of the function walked
+func (w *saveWalk) call(c *ast.CallExpr, checked bool, how string, roles map[string]string, outerChecked bool) {
+	name := w.roleName(c, roles)
+	if name == "os.OpenFile" && len(c.Args) >= 2 {
+		ast.Inspect(c.Args[1], func(m ast.Node) bool {
+			if s, ok := m.(*ast.SelectorExpr); ok && s.Sel.Name == "O_TRUNC" {
+				w.truncates = true
+			}
+			return true
+		})
+	}
+	if name == "os.Create" {
+		w.truncates = true
+	}
+	if w.interesting(name) {
+		w.out = append(w.out, effect{name, checked && outerChecked, how, w.p.pos(c)})
+		return
+	}
+	if fd := w.localFunc(c); fd != nil && !w.visiting[fd.Name.Name] && len(w.visiting) < 6 {
+		inner := map[string]string{}
+		if fd.Type.Params != nil {
+			k := 0
+			for _, prm := range fd.Type.Params.List {
+				for _, pn := range prm.Names {
+					if k < len(c.Args) {
+						a := c.Args[k]
+						if u, ok := a.(*ast.UnaryExpr); ok {
+							a = u.X
+						}
+						if id, ok := a.(*ast.Ident); ok {
+							if r, ok := roles[id.Name]; ok {
+								inner[pn.Name] = r
 							}
 						}
-						if assignsErr && i+1 < len(list) {
-							if nx, ok := list[i+1].(*ast.IfStmt); ok && nx.Init == nil && isErrNotNil(nx.Cond) && returnsError(nx.Body) {
-								checked = true
-							}
+					}
+					k++
+				}
+			}
+		}
+		w.visiting[fd.Name.Name] = true
+		w.walk(fd.Body.List, inner, checked && outerChecked)
+		delete(w.visiting, fd.Name.Name)
+	}
+}
+
+func (w *saveWalk) walk(list []ast.Stmt, roles map[string]string, outerChecked bool) {
+	for i, st := range list {
+		switch s := st.(type) {
+		case *ast.IfStmt:
+			if as, ok := s.Init.(*ast.AssignStmt); ok && len(as.Rhs) == 1 {
+				if c, ok := as.Rhs[0].(*ast.CallExpr); ok {
+					w.call(c, isErrNotNil(s.Cond) && returnsError(s.Body), "if err := ...; err != nil { return err }", roles, outerChecked)
+					w.noteRoles(as.Lhs, c, roles)
+				}
+			}
+			w.walk(s.Body.List, roles, outerChecked)
+			if eb, ok := s.Else.(*ast.BlockStmt); ok {
+				w.walk(eb.List, roles, outerChecked)
+			}
+		case *ast.AssignStmt:
+			if len(s.Rhs) == 1 {
+				if c, ok := s.Rhs[0].(*ast.CallExpr); ok {
+					checked := false
+					// x, err := f(); if err != nil { return ... } as the next statement
+					assignsErr := false
+					for _, l := range s.Lhs {
+						if id, ok := l.(*ast.Ident); ok && id.Name == "err" {
+							assignsErr = true
 						}
-						out = append(out, effect{callName(c), checked, "assigned, then checked by the next statement", p.pos(c)})
+					}
+					if assignsErr && i+1 < len(list) {
+						if nx, ok := list[i+1].(*ast.IfStmt); ok && nx.Init == nil && isErrNotNil(nx.Cond) && returnsError(nx.Body) {
+							checked = true
+						}
+					}
+					w.call(c, checked, "assigned, then checked by the next statement", roles, outerChecked)
+					w.noteRoles(s.Lhs, c, roles)
+				}
+			}
+		case *ast.DeclStmt:
+			// var x = f()
+			if gd, ok := s.Decl.(*ast.GenDecl); ok {
+				for _, sp := range gd.Specs {
+					if vs, ok := sp.(*ast.ValueSpec); ok && len(vs.Values) == 1 && len(vs.Names) >= 1 {
+						if c, ok := vs.Values[0].(*ast.CallExpr); ok {
+							w.call(c, false, "declared", roles, outerChecked)
+							w.noteRoles([]ast.Expr{vs.Names[0]}, c, roles)
+						}
 					}
 				}
-			case *ast.DeferStmt:
-				if interesting(callName(s.Call)) {
-					out = append(out, effect{callName(s.Call), false, "deferred: result dropped", p.pos(s.Call)})
+			}
+		case *ast.DeferStmt:
+			w.call(s.Call, false, "deferred: result dropped", roles, outerChecked)
+		case *ast.ExprStmt:
+			if c, ok := s.X.(*ast.CallExpr); ok {
+				w.call(c, false, "expression statement: result dropped", roles, outerChecked)
+			}
+		case *ast.RangeStmt:
+			w.walk(s.Body.List, roles, outerChecked)
+		case *ast.ForStmt:
+			w.walk(s.Body.List, roles, outerChecked)
+		case *ast.BlockStmt:
+			w.walk(s.List, roles, outerChecked)
+		case *ast.SwitchStmt:
+			for _, cc := range s.Body.List {
+				if cl, ok := cc.(*ast.CaseClause); ok {
+					w.walk(cl.Body, roles, outerChecked)
 				}
-			case *ast.ExprStmt:
-				if c, ok := s.X.(*ast.CallExpr); ok && interesting(callName(c)) {
-					out = append(out, effect{callName(c), false, "expression statement: result dropped", p.pos(c)})
-				}
-			case *ast.RangeStmt:
-				walk(s.Body.List)
-			case *ast.ForStmt:
-				walk(s.Body.List)
-			case *ast.BlockStmt:
-				walk(s.List)
-			case *ast.ReturnStmt:
-				for _, r := range s.Results {
-					if c, ok := r.(*ast.CallExpr); ok && interesting(callName(c)) {
-						out = append(out, effect{callName(c), true, "returned", p.pos(c)})
-					}
+			}
+		case *ast.ReturnStmt:
+			for _, r := range s.Results {
+				if c, ok := r.(*ast.CallExpr); ok {
+					w.call(c, true, "returned", roles, outerChecked)
 				}
 			}
 		}
 	}
-	walk(fd.Body.List)
-	return out
+}
+
+func saveEffects(p *pkgSrc, fd *ast.FuncDecl, interesting func(string) bool) ([]effect, bool) {
+	w := &saveWalk{p: p, interesting: interesting, visiting: map[string]bool{fd.Name.Name: true}}
+	w.walk(fd.Body.List, map[string]string{}, true)
+	return w.out, w.truncates
 }
 
 func genSaveEffects(repo string) (string, error) {
@@ -137,35 +277,19 @@ func genSaveEffects(repo string) (string, error) {
 		}
 		return false
 	}
-	effs := saveEffects(p, fd, interesting)
+	effs, truncates := saveEffects(p, fd, interesting)
 	var b strings.Builder
 	b.WriteString("From Coq Require Import List String Bool.\nImport ListNotations.\nOpen Scope string_scope.\n\n")
 	b.WriteString("(* calls of Document.Save that can fail, in source order: (call, its error reaches the return value) *)\nDefinition save_effects : list (string * bool) := [\n")
 	var rows []string
-	opens, truncates := 0, false
+	opens := 0
 	for _, e := range effs {
 		rows = append(rows, fmt.Sprintf("  (* %s: %s *) (%s, %v)", e.Pos, e.How, coqString(e.Call), e.Checked))
-		if e.Call == "os.Create" {
-			opens++
-			truncates = true
-		}
-		if e.Call == "os.OpenFile" {
+		if e.Call == "os.Create" || e.Call == "os.OpenFile" {
 			opens++
 		}
 	}
 	b.WriteString(strings.Join(rows, ";\n") + "\n].\n\n")
-	// os.OpenFile: does the flag expression mention O_TRUNC?
-	ast.Inspect(fd, func(n ast.Node) bool {
-		if c, ok := n.(*ast.CallExpr); ok && callName(c) == "os.OpenFile" && len(c.Args) >= 2 {
-			ast.Inspect(c.Args[1], func(m ast.Node) bool {
-				if s, ok := m.(*ast.SelectorExpr); ok && s.Sel.Name == "O_TRUNC" {
-					truncates = true
-				}
-				return true
-			})
-		}
-		return true
-	})
 	if opens != 1 {
 		return "", fmt.Errorf("Save opens the target %d times (expected exactly one os.Create / os.OpenFile)", opens)
 	}
